@@ -232,9 +232,17 @@ fn get_ignore(
     }
 }
 
+/// The path without a leading `./`: walking `.` yields `./foo.lua` for the file a user may also name as `foo.lua`
+fn without_current_dir_prefix(path: &Path) -> &Path {
+    path.strip_prefix(".").unwrap_or(path)
+}
+
 /// Whether the provided path was explicitly provided to the tool
 fn is_explicitly_provided(opt: &opt::Opt, path: &Path) -> bool {
-    opt.files.iter().any(|p| path == *p)
+    let path = without_current_dir_prefix(path);
+    opt.files
+        .iter()
+        .any(|p| path == without_current_dir_prefix(p))
 }
 
 /// By default, files explicitly passed to the command line will be formatted regardless of whether
@@ -459,10 +467,10 @@ fn format(opt: opt::Opt) -> Result<i32> {
                     let path = entry.path().to_owned(); // TODO: stop to_owned?
                     let opt = opt.clone();
 
-                    if seen_files.contains(&path) {
+                    // The same file can be reached through several arguments, spelled with or without a leading `./`
+                    if !seen_files.insert(without_current_dir_prefix(&path).to_owned()) {
                         continue;
                     }
-                    seen_files.insert(path.clone());
 
                     if path.is_file() {
                         // If the user didn't provide a glob pattern, we should match against our default one
